@@ -166,8 +166,15 @@ def o132(ctx):
     ro, ri = mk("add", sym("r"), mk("div", sym("t"), const(2.0))), mk("sub", sym("r"), mk("div", sym("t"), const(2.0)))
     want = mk("sub", mk("ite", mk("le", d, ro), const(1.0), const(0.0)), mk("ite", mk("le", d, ri), const(1.0), const(0.0)))
     envs = lattice_envs(ax, rng, 90, extra={"r": lambda g, e: float(g.integers(4, 30)), "t": lambda g, e: float(g.integers(1, 4) * 2)})
-    for i, env in enumerate(envs):
+    # radii from 1 and shells thicker than the sphere (inner radius zero or negative: the inner solid is then empty)
+    thick = lattice_envs(ax, rng, 60, extra={"r": lambda g, e: float(g.integers(1, 6)), "t": lambda g, e: float(g.integers(1, 18))})
+    for i, env in enumerate(envs + thick):
         centre_sampler(env, rng)
+    for env in thick:  # voxels around the centre, where a cavity would be
+        for k_, A in enumerate(ax):
+            n_ = int(env[tm.symbols(A.n)[0]])
+            env[A.sym.args[0]] = float(min(max(int(env[f"c{k_}"]) + int(rng.integers(-3, 4)), 0), n_ - 1))
+    envs += thick
     decide(ctx, q, v, want, envs, "spherical shell = solid(r + t/2) - solid(r - t/2)", m, fn)
     # ellipsoid shell: outer AND NOT inner with radii +- thickness/2 (structure of the combination only)
     q2 = CM + "ellipsoid_shell_mask"
